@@ -45,3 +45,11 @@ contract(f"{RT}:Router.gn_ls_request", props=[], assumed=True,
          shapes={"self": ROUTER, "sought_gn_addr": GNADDR, "buffered_request": T.opt(GNREQ)},
          ghost_effect=_ls_ghost, ensures={"returns_none": "result is None"},
          trusted=["Router.gn_ls_request: assumed contract at call sites (starts or joins a location-service lookup and buffers the request); its body is covered only by the lock-discipline obligations of C15"], **SB)
+
+contract(f"{RT}:Router._distance_m", props=["C07"], shapes={"lat1": T.int(), "lon1": T.int(), "lat2": T.int(), "lon2": T.int()},
+         ensures={"nonnegative": "result >= 0"}, **dict(SI, spec_module="spec_geo"))
+contract(f"{RT}:Router._cbf_compute_timeout_ms", props=["C06"], shapes={"self": ROUTER, "dist_m": T.float(0)},
+         requires=["self.mib.itsGnDefaultMaxCommunicationRange > 0", "0 <= self.mib.itsGnCbfMinTime <= self.mib.itsGnCbfMaxTime"],
+         ensures={"between_min_and_max": "self.mib.itsGnCbfMinTime <= result <= self.mib.itsGnCbfMaxTime",
+                  "far_senders_first": "implies(dist_m >= self.mib.itsGnDefaultMaxCommunicationRange, result == self.mib.itsGnCbfMinTime)"},
+         **dict(SI, spec_module="spec_geo"))
